@@ -20,7 +20,10 @@ m.setdefault("property", sid[:3])
 head = subprocess.run(['git','-C','/repo','rev-parse','--short','HEAD'],capture_output=True,text=True).stdout.strip()
 m["validated_by_orchestrator"] = "tools/validate_seed.sh in a scratch git worktree of /repo at %s: patch applies; demo exits 0 unchanged / non-zero with the patch; suite with the patch: 161 passed, 4 failed (baseline)" % head
 m["how_to_run_demo"] = "CELLPYLIB_REPO=<tree> /venv/bin/python seeded/%s/demo.py" % sid
-m["origin"] = "round %s: fresh sub-agent given only the property text and a scratch worktree; asked for two maintainer-plausible changes from different families (optimisation, modernisation, robustness, merged code paths, edge of the domain, evaluation order) with as narrow a failing-input set as possible" % tag[1:]
+ORIGINS = {
+ "r5": "asked for two maintainer-plausible changes from different families (optimisation, modernisation, robustness, merged code paths, edge of the domain, evaluation order) with as narrow a failing-input set as possible",
+ "r6": "told what the checks already vary (dtypes, layouts, callable shapes, parameter types, sizes) and asked to split the property into clauses first, then for two changes from different families (least-exercised clause, interaction of two or three features, re-entrancy and lifetime, numeric edge, API clean-up with a compatibility shim)"}
+m["origin"] = "round %s: fresh sub-agent given only the property text and a scratch worktree; %s" % (tag[1:], ORIGINS.get(tag, "asked for two hard-to-find changes"))
 json.dump(m, open(dst,'w'), indent=1)
 PY
         echo "   kept as $d"
